@@ -10,6 +10,7 @@ CONSTANTS
   WithEnv = TRUE
   Depth = 10
   GenActs <- ActsTyped
+  Shape <- ShapeAny
 INIT GenInit
 NEXT GenNext
 CONSTRAINT Emit
